@@ -74,7 +74,12 @@ impl PixelDataReader for JpegAdapter {
                 .with_whatever_context(|_| format!("JPEG decoding failure on frame {i}"))?;
 
             let decoded_len = decoded.len();
-            dst[dst_offset..(dst_offset + decoded_len)].copy_from_slice(&decoded);
+            // the JPEG stream may describe a larger image than the attributes do
+            dst.get_mut(dst_offset..(dst_offset + decoded_len))
+                .with_whatever_context(|| {
+                    format!("JPEG frame {i} decodes to more samples than the image attributes describe")
+                })?
+                .copy_from_slice(&decoded);
             dst_offset += decoded_len;
 
             if next_even(cursor.position()) >= next_even(fragments_len) {
@@ -225,7 +230,14 @@ impl PixelDataReader for JpegAdapter {
             .whatever_context("JPEG decoder failure")?;
 
         let decoded_len = decoded.len();
-        dst[dst_offset..(dst_offset + decoded_len)].copy_from_slice(&decoded);
+        // the JPEG stream may describe a larger image than the attributes do
+        dst.get_mut(dst_offset..(dst_offset + decoded_len))
+            .with_whatever_context(|| {
+                format!(
+                    "JPEG frame {frame} decodes to more samples than the image attributes describe"
+                )
+            })?
+            .copy_from_slice(&decoded);
 
         Ok(())
     }
